@@ -313,13 +313,18 @@ Theorem C18_parse_hex_literal : forall body,
 Proof. exact parse_hex_literal. Qed.
 Print Assumptions C18_parse_hex_literal.
 
-(* octal: only up to 21 digits -- see C18_parse_octal_22_digits_refuted below *)
+(* octal: any number of digits (digits may straddle 64-bit word borders; literals of 22 or more
+   digits were rejected before /repo 659d324) *)
 Theorem C18_parse_octal_literal : forall body,
-  oct_body body = true -> (length body <= 21)%nat ->
+  oct_body body = true ->
   exists s, parseBitVector ("o"%char :: body) = Some s /\ wf s /\ clean s
             /\ bsize s = N.of_nat (length body) * 3 /\ abs s = digits_spec 3 body.
 Proof. exact parse_octal_literal. Qed.
 Print Assumptions C18_parse_octal_literal.
+Example ex_parse_octal_long :
+  oct_body (list_ascii_of_string "1234567012345670123456701234567012345670123") = true
+  /\ option_map bsize (parseBitVector (list_ascii_of_string "o0000000000000000000000")) = Some 66.
+Proof. split; vm_compute; reflexivity. Qed.
 Example ex_parse : hex_body (list_ascii_of_string "fX09") = true
                    /\ digits_spec 4 (list_ascii_of_string "A5") = [[true;false;true;false; false;true;false;true]; repeat true 8].
 Proof. split; vm_compute; reflexivity. Qed.
@@ -350,21 +355,14 @@ Print Assumptions C18_parse_print_roundtrip.
 Example ex_roundtrip : wf ex_s /\ length (planes ex_s) = 2%nat.
 Proof. split; apply ex_s_wf. Qed.
 
-(* ---------------- refuted: where the real container (and hence the faithful model) does NOT
-   behave like the operation on an array of bits; confirmed on the real library by
-   harness/C18_bvs.cpp on every run (KNOWN_FINDINGS.txt: octal literal) ---------------- *)
+(* ---------------- necessity of a hypothesis; all three deviations found while building this check
+   (formatState decimal digits, createRandom* tail bits, long octal literals) are repaired in /repo
+   and regression-probed by checks/C18.py ---------------- *)
 (* the `clean` hypothesis of C18_resize cannot be dropped (no modelled operation produces an unclean
-   state; createRandom*DefaultBitVectorState used to, repaired in /repo 25f5b7d and regression-probed) *)
+   state; createRandom*DefaultBitVectorState used to, repaired in /repo 0690f16 and regression-probed) *)
 Theorem C18_resize_clean_hypothesis_necessary :
   wf st_dirty /\ wf st_cleaned /\ abs st_dirty = abs st_cleaned /\ eqS st_dirty st_cleaned = true
   /\ abs (resize st_dirty 20) <> resize_spec (abs st_dirty) 20
   /\ eqS (resize st_dirty 20) (resize st_cleaned 20) = false.
 Proof. exact resize_clean_hypothesis_necessary. Qed.
 Print Assumptions C18_resize_clean_hypothesis_necessary.
-
-Theorem C18_parse_octal_22_digits_refuted :
-  parseBitVector (list_ascii_of_string "o0000000000000000000000") = None
-  /\ parseBitVector (list_ascii_of_string "66o1234567012345670123456") = None
-  /\ (exists s, parseBitVector (list_ascii_of_string "o000000000000000000000") = Some s /\ bsize s = 63).
-Proof. exact parse_octal_22_digits_refuted. Qed.
-Print Assumptions C18_parse_octal_22_digits_refuted.
